@@ -773,6 +773,12 @@ def build(E):
         return binsearch(F, bi, st, t, args)
     M["core::slice::<impl [T]>::binary_search_by_key"] = binsearch_by_key
 
+    def partition_point(F, bi, st, t, args):
+        abscall.analyse_closure_args(F, bi, st, t, args[1][0] if len(args) > 1 else BOT)
+        v = lenval(F, st, args[0])
+        return ("i", 0, v[2] if v else MAXLEN)
+    M["core::slice::<impl [T]>::partition_point"] = partition_point
+
     def copy_from_slice(F, bi, st, t, args):
         a, b = lenval(F, st, args[0]), lenval(F, st, args[1])
         ok = a is not None and b is not None and a[1] == a[2] == b[1] == b[2]
